@@ -334,6 +334,15 @@ def run_case(case):
         step += 1
         ok = kinds[i] == "lo"
         d = inputs[i]
+        if d.called != (ref.state[i] is not None):
+            # the aggregate cancelled (or failed to cancel) this input: report and stop, the rest of the
+            # schedule is meaningless
+            which = "cancelled-unexpectedly" if d.called else "not-cancelled"
+            ctx = "on-aggregate-cancel" if ref.cancelled_agg else ("race-loser" if agg[0] == "race" else "no-cancel-due")
+            bad.append(("%s:input-%s:%s" % (name, which, ctx),
+                        "input %d is %s before its firing #%d, reference says %s" % (
+                            i, "fired" if d.called else "unfired", step, "unfired" if d.called else "cancelled")))
+            break
         if d.called:
             # cancelled earlier by the aggregate (race loser / aggregate cancel)
             if canc[i] == "none" and d.liveCancels:
@@ -372,8 +381,15 @@ def run_case(case):
                 acc.add(("cancelled",))
             if desc not in acc:
                 exp = sorted(acc - {("cancelled",)}, key=repr)
-                bad.append(("%s:wrong-result:expected-%s-got-%s" % (name, exp[0][0] if exp else "?", desc[0]),
-                            "got %r, acceptable %r" % (desc, exp)))
+                ek = exp[0][0] if exp else "?"
+                if ek != desc[0]:
+                    what = "expected-%s-got-%s" % (ek, desc[0])
+                elif ek in ("group", "list", "values"):
+                    same = any(sorted(x[1], key=repr) == sorted(desc[1], key=repr) for x in exp)
+                    what = "%s-not-in-input-order" % ek if same else "%s-has-wrong-entries" % ek
+                else:
+                    what = "%s-with-wrong-index-or-value" % ek
+                bad.append(("%s:wrong-result:%s" % (name, what), "got %r, acceptable %r" % (desc, exp)))
         for i in range(n):
             if len(seen[i]) != 1:
                 bad.append(("harness:watcher-ran-%d-times" % len(seen[i]), "input %d" % i))
